@@ -492,9 +492,11 @@ func zzC20PrefixOrSuffix(r, l []Form) (bool, bool) {
 
 // VerifC20Crash: the process dies at file-system step k (vrt.Choice over the
 // steps of the operation, the last choice is "no death") of
-//   op 0: History.Add of a symbolic form, n0 entries, limit (compacting iff
-//         n0+1 reaches limit+limit/10),
-//   op 1: History.Clear(symbolic start,end).
+//
+//	op 0: History.Add of a symbolic form, n0 entries, limit (compacting iff
+//	      n0+1 reaches limit+limit/10),
+//	op 1: History.Clear(symbolic start,end).
+//
 // Then the program "starts again": a fresh History.Load of the surviving
 // directory must give the list before the operation or the list after it;
 // and a following complete Add must leave file, memory and reference equal.
